@@ -123,35 +123,22 @@ func propC05(a *Analysis, r *Registry) {
 				}
 				sfc := X.FCFor(fs)
 				singleRV := sfc.RetVal(0)
-				n := 0
-				fc.Ctx.Instrs(func(in ssa.Instruction) {
-					st, ok := in.(*ssa.Store)
-					if !ok {
-						return
-					}
-					ia, ok := st.Addr.(*ssa.IndexAddr)
-					if !ok || !isFloatType(st.Val.Type()) {
-						return
-					}
-					n++
-					i := fc.Val(ia.Index)
-					elem := S.MakeFn("idx", env.Vars["xs"].RF, i)
+				// how each element of the returned slice is defined (indexed stores on any
+				// branch, in this method or a helper it fills the slice with; or appends)
+				defs, why := fc.ElementDefs(fc.RetVal(0))
+				if len(defs) == 0 {
+					r.Fail("B-C05 siblings", construct, b.pos(fe), "no per-element definition of the result on this path: "+why)
+					return
+				}
+				for _, df := range defs {
+					elem := S.MakeFn("idx", env.Vars["xs"].RF, df.Index)
 					want := singleRV.Subst(map[AtomID]*RF{
 						X.ParamRF(fs, 0).SingleAtom().ID: X.ParamRF(fe, 0),
 						X.ParamRF(fs, 1).SingleAtom().ID: elem,
 					})
 					want = X.SimplifyUnder(want, as)
-					got := fc.Sub(fc.Val(st.Val))
-					// a conditional store (`if cond { res[i] = v }`) leaves the zero value otherwise
-					if rc := fc.ReachCondFrom(loopBodyEntry(fc, st.Block()), st.Block()); rc != nil {
-						if at := rc.SingleAtom(); at == nil || at.Name != "true" {
-							got = S.Ite(fc.Sub(rc), got, S.Int(0))
-						}
-					}
-					b.EqRF("B-C05 siblings", construct, a.W.InstrPos(st), got, want, each+"[i] equals "+singleName+"(xs[i])")
-				})
-				if n == 0 {
-					r.Fail("B-C05 siblings", construct, b.pos(fe), "no element store on this path")
+					got := fc.Sub(df.Value)
+					b.EqRF("B-C05 siblings", construct, df.Where, got, want, each+"[i] equals "+singleName+"(xs[i])")
 				}
 			})
 		}
